@@ -1,6 +1,12 @@
 package main
 
-import "net/url"
+import (
+	"fmt"
+	"net/url"
+	"regexp"
+	"strconv"
+	"strings"
+)
 
 func mustURL(s string) *url.URL {
 	u, err := url.Parse(s)
@@ -8,4 +14,77 @@ func mustURL(s string) *url.URL {
 		panic(err)
 	}
 	return u
+}
+
+// ---- compact Gallina terms: coqc spends its time on string literals ----
+
+var bsRe = regexp.MustCompile(`\(bs \[([0-9;]*)\]%N\)`)
+var litRe = regexp.MustCompile(`"(?:[^"]|"")*"`)
+
+var namedLits = map[string]string{
+	`"github.com/devopsfaith/krakend/http"`:  "ns_http",
+	`"github.com/devopsfaith/krakend/proxy"`: "ns_proxy",
+	`"return_error_details"`:                 "key_details",
+	`"return_error_code"`:                    "key_code",
+}
+
+// compact rewrites a case term into an equal, cheaper one: byte-list strings that are printable
+// ASCII become literals (a quote is written twice inside a Coq literal), the namespace / key names
+// the model defines are referred to by name, and a literal that occurs more than once is let-bound.
+func compact(term string) string {
+	term = bsRe.ReplaceAllStringFunc(term, func(m string) string {
+		inner := m[len("(bs [") : len(m)-len("]%N)")]
+		if inner == "" {
+			return `""`
+		}
+		parts := strings.Split(inner, ";")
+		var b strings.Builder
+		b.WriteByte('"')
+		for _, p := range parts {
+			n, err := strconv.Atoi(p)
+			if err != nil || n < 0x20 || n > 0x7e {
+				return m
+			}
+			if n == '"' {
+				b.WriteString(`""`)
+			} else {
+				b.WriteByte(byte(n))
+			}
+		}
+		b.WriteByte('"')
+		return b.String()
+	})
+	count := map[string]int{}
+	var order []string
+	for _, l := range litRe.FindAllString(term, -1) {
+		if count[l] == 0 {
+			order = append(order, l)
+		}
+		count[l]++
+	}
+	names := map[string]string{}
+	var b strings.Builder
+	b.WriteString("(")
+	for _, l := range order {
+		if n, ok := namedLits[l]; ok {
+			names[l] = n
+			continue
+		}
+		if count[l] > 1 && len(l) > 5 {
+			n := fmt.Sprintf("z%d_", len(names))
+			names[l] = n
+			b.WriteString("let " + n + " := " + l + "%string in ")
+		}
+	}
+	if len(names) == 0 {
+		return term
+	}
+	b.WriteString(litRe.ReplaceAllStringFunc(term, func(l string) string {
+		if n, ok := names[l]; ok {
+			return n
+		}
+		return l
+	}))
+	b.WriteString(")")
+	return b.String()
 }
